@@ -233,7 +233,20 @@ def impl(case):
     text = case["input"]["text"]
     if case["input"].get("lex"):
         if _RX is None:
-            _RX = re.compile(_regex_from_source(), re.MULTILINE)
+            # The lexer model (Model/Lexer.v classify) implements ONE pattern, the pinned tree's.  This stream checks that model
+            # against CPython's `re` on the pattern the code uses - meaningful only while the code uses that very pattern as a
+            # literal argument of finditer.  A tree that builds its marks differently (precompiled constant, an equivalent
+            # pattern, no regex at all) is not wrong for that: the stream is skipped for it and says so in the evidence; what the
+            # splitter DOES is compared on every other stream.
+            import gen_constants
+            try:
+                pat = _regex_from_source()
+            except Exception:  # noqa: BLE001
+                pat = None
+            _RX = re.compile(pat, re.MULTILINE) if isinstance(pat, str) and pat == gen_constants.PINNED["mark_regex_src"] else False
+        if _RX is False:
+            return {"sx_in": None, "sx_out": None, "nontrivial": False, "key": "lex:" + text[:100],
+                    "tags": ["lexer:skipped-the-tree-does-not-use-the-modelled-pattern-literally"], "summary": "skipped"}
         marks = [[m.start(), enc.enc_str(m.group(0))] for m in _RX.finditer("\n" + text)]
         return {"sx_in": [130, enc.enc_str(text)], "sx_out": implutil.r_ok(marks), "nontrivial": len(marks) > 1,
                 "key": "lex:" + text[:100], "tags": ["lexer"], "summary": "%d marks" % len(marks)}
